@@ -5,17 +5,19 @@ package oracle
 //
 // What the statement fixes, and therefore what is demanded:
 //
-//	by-directory  header  = `package,summary` + language names, no name twice; every language that has a file
-//	                        outside the ignored directories (under the include-ext filter) MUST be named; every
-//	                        named language MUST exist somewhere in the tree (ignored directories included: the
-//	                        statement says "the whole tree" and does not say whether `.idea/x.java` counts, so
-//	                        both readings are accepted). Column order: not promised, not asserted.
+//	by-directory  header  = `package,summary` + language names, no name twice; "the languages found in the whole
+//	                        tree": every language with a file anywhere in the tree (under the include-ext filter),
+//	                        the IDE / report directories .idea and coca_reporter included (the repository's own
+//	                        golden cloc_ignore.txt names a language found only in .idea), MUST be named; a language
+//	                        found only below a top-level .git/.svn/.hg MAY be named (whether version-control
+//	                        metadata is part of the tree is left open); nothing else may be named.
+//	                        Column order: not promised, not asserted.
 //	              rows    = exactly one per immediate sub-directory that is not .git/.svn/.hg/.idea/coca_reporter
 //	                        (empty ones included); order not promised, not asserted.
 //	              cell    = planted code lines of that language below that sub-directory (0 when none)
 //	              summary = sum of the cells of the row
 //	top-file      per language: files in non-increasing order of code lines; per-file code == planted; every file
-//	              outside the ignored directories MUST be listed, files inside them MAY be (same reason as above);
+//	              of the tree MUST be listed, files below a top-level .git/.svn/.hg MAY be (same reason as above);
 //	              the printed table of a language has min(N, len) rows, in non-increasing order, carrying the
 //	              min(N, len) largest figures of that list.
 //
@@ -77,10 +79,12 @@ func ExpectByDir(t *treegen.Tree, flt ClocFilter) *ByDirExpect {
 		}
 		e.MayLangs[f.Lang] = true
 		top := f.TopDir()
+		if !treegen.IsVCSName(top) {
+			e.MustLangs[f.Lang] = true
+		}
 		if e.IgnoredNames[top] {
 			continue
 		}
-		e.MustLangs[f.Lang] = true
 		if top != "" {
 			e.Cell[top][f.Lang] += f.Code
 		}
@@ -127,7 +131,7 @@ func CheckByDirTable(t *treegen.Tree, flt ClocFilter, table [][]string, what str
 	}
 	for _, l := range clocSortedKeys(e.MustLangs) {
 		if _, ok := col[l]; !ok {
-			add("bydir-header-missing-lang", "language %s has files outside the ignored directories but header is %q", l, strings.Join(h, ","))
+			add("bydir-header-missing-lang", "language %s has files in the tree (outside .git/.svn/.hg) but header is %q", l, strings.Join(h, ","))
 		}
 	}
 	// comment figures per (dir, lang) for narrower signatures
@@ -325,7 +329,7 @@ func CheckClocTopFile(t *treegen.Tree, flt ClocFilter, n int, langs []ClocTopLan
 		}
 		planted[f.Rel] = f
 		may[f.Lang] = true
-		if treegen.IsIgnoredName(f.TopDir()) {
+		if treegen.IsVCSName(f.TopDir()) {
 			continue
 		}
 		if must[f.Lang] == nil {
@@ -387,7 +391,7 @@ func CheckClocTopFile(t *treegen.Tree, flt ClocFilter, n int, langs []ClocTopLan
 	}
 	for l := range must {
 		if !seenLang[l] {
-			add("top-lang-missing", "language %s has %d file(s) outside the ignored directories but no entry in sort_cloc.json", l, len(must[l]))
+			add("top-lang-missing", "language %s has %d file(s) in the tree (outside .git/.svn/.hg) but no entry in sort_cloc.json", l, len(must[l]))
 		}
 	}
 	// printed tables
